@@ -35,13 +35,32 @@ ASSUMPTIONS = ["positions/momenta/cell are integer-valued floats so that numpy a
 ENSEMBLES = ["canonical", "hamiltonian", "isobaric", "grand", "grand", "grand", "base"]
 
 
-def trial_sig(case, k):
+def _one_sig(case, k):
     tr = case["trials"][k]
     ent = next(e for e in case["table"] if e["name"] == tr["name"])
     refs = machine.tree_refs(ent["tree"])
     kinds = "".join(sorted({machine.KINDCHAR[case["objs"][r]["kind"]] for r in refs}))
     nx = sum(case["objs"][r]["kind"] == "exch" for r in refs)
-    return f"{case['ens']}:{ent['tree'][0]}{kinds}x{nx}"
+    defective = ent["tree"][0] == "P" and (nx >= 2 or (nx >= 1 and "D" in kinds))
+    return f"{case['ens']}:{ent['tree'][0]}{kinds}x{nx}", defective
+
+
+def trial_sig(case, k):
+    """ensemble:tree-shape+kinds of trial k. A history in which an earlier trial already ran a plain composite with
+    exchange members (recorded defect: the bookkeeping is corrupted from then on) is attributed to that trial."""
+    for j in range(k + 1):
+        sig, defective = _one_sig(case, j)
+        if defective:
+            return sig
+    return _one_sig(case, k)[0]
+
+
+def defect_scope(case):
+    for k in range(len(case["trials"])):
+        sig, defective = _one_sig(case, k)
+        if defective:
+            return f"model-divergence:{sig}:plain-composite-with-exchange"
+    return None
 
 
 def restore_violations(case, obs):
@@ -122,6 +141,9 @@ class Histories(common.Suite):
         if "outcomes" in obs:
             out += restore_violations(case, obs)
         return out
+
+    def known_scope(self, case):
+        return defect_scope(case)
 
     def classify(self, case, obs):
         if "outcomes" not in obs:
